@@ -17,7 +17,7 @@ import z3
 from pyvc.contract import Contract, Loop, Registry
 from pyvc.core import mk_snoc
 from pyvc.maps import VMap, map_sort, set_sort
-from pyvc.specfn import SpecLib
+from pyvc.specfn import SpecLib, new_subterms, subterms
 from pyvc.symex import RaiseSig, World
 from pyvc.values import BOOL, INT, NONE, STR, EngineError, V, VBool, VBound, VCls, VExc, VHeapRef, VNone, VOpt, VPy, VSeq, VStr, VU, fresh_name, opt_of, seq_of
 from pyvc.verify import Lemma
@@ -144,15 +144,12 @@ def build():
         sf[nm] = (lambda f: lambda a, b: VBool(f(a.term, b.term)))(f)
 
     def shrink_instances(formulas):
-        out, seen, stack = [], set(), list(formulas)
-        apps: dict[str, list] = {k: [] for k in SHR}
-        keys: dict[int, dict[int, object]] = {}
-        allstores: dict[int, dict[int, object]] = {}
-        while stack:
-            f = stack.pop()
-            if not z3.is_app(f) or f.get_id() in seen:
-                continue
-            seen.add(f.get_id())
+        out = []
+        fresh, st = new_subterms(formulas, "shrink")         # classification of the sub-terms is kept across the rounds of one VC
+        apps = st.setdefault("apps", {k: [] for k in SHR})
+        keys = st.setdefault("keys", {})
+        allstores = st.setdefault("allstores", {})
+        for f in fresh:
             nm = f.decl().name()
             if nm in apps:
                 apps[nm].append(f)
@@ -160,7 +157,6 @@ def build():
                 keys.setdefault(f.arg(0).sort().get_id(), {})[f.arg(1).get_id()] = f.arg(1)
             if f.decl().kind() == z3.Z3_OP_STORE:
                 allstores.setdefault(f.sort().get_id(), {})[f.get_id()] = f
-            stack.extend(f.children())
         done = set()
 
         def emit(x):
@@ -184,6 +180,10 @@ def build():
                 for b in apps[nm]:
                     if a.arg(1).eq(b.arg(0)):
                         emit(z3.Implies(z3.And(a, b), f(a.arg(0), b.arg(1))))                     # transitive
+                    elif not a.eq(b) and ((z3.is_const(a.arg(1)) and z3.is_app(b.arg(0)) and b.arg(0).decl().kind() == z3.Z3_OP_STORE)
+                                          or (z3.is_const(b.arg(0)) and z3.is_app(a.arg(1)) and a.arg(1).decl().kind() == z3.Z3_OP_STORE)):
+                        # ... also when the middle maps are equal only semantically (a map named by a callee's postcondition `M == mdel(M0, k)`)
+                        emit(z3.Implies(z3.And(a, b, a.arg(1) == b.arg(0)), f(a.arg(0), b.arg(1))))
                     # removal composed: remove(k) of something that shrinks
             # every removal term over a base that is known to shrink something shrinks it too
             stores = [t for t in list(terms.values()) + [x for x in allstores.get(ms.z3().get_id(), {}).values()]
@@ -239,14 +239,9 @@ def build():
         """is_child_of(x, n) for every element x the executor took out of lkids(n) / lkidsf(n)"""
         out, seen, stack = [], set(), list(formulas)
         units = []
-        while stack:
-            f = stack.pop()
-            if not z3.is_app(f) or f.get_id() in seen:
-                continue
-            seen.add(f.get_id())
+        for f in subterms(formulas):
             if f.decl().kind() == z3.Z3_OP_SEQ_UNIT and f.arg(0).sort() in (REF.z3(), CPOS.z3()):
                 units.append(f.arg(0))
-            stack.extend(f.children())
         ks = [f for f in seen_terms(formulas, ("lkids", "lkidsf"))]
         for k in ks:
             for u in units:
@@ -258,14 +253,9 @@ def build():
 
     def seen_terms(formulas, names):
         out, seen, stack = [], set(), list(formulas)
-        while stack:
-            f = stack.pop()
-            if not z3.is_app(f) or f.get_id() in seen:
-                continue
-            seen.add(f.get_id())
+        for f in subterms(formulas):
             if f.decl().name() in names:
                 out.append(f)
-            stack.extend(f.children())
         return out
 
     lib.extra_instantiators.append(child_instances)
@@ -273,18 +263,13 @@ def build():
     def only_sub_instances(formulas):
         out, seen, stack = [], set(), list(formulas)
         apps, keys, stores, kidfacts = [], {}, {}, []
-        while stack:
-            f = stack.pop()
-            if not z3.is_app(f) or f.get_id() in seen:
-                continue
-            seen.add(f.get_id())
+        for f in subterms(formulas):
             if f.decl().name() == "only_subtree_ids_changed":
                 apps.append(f)
             if f.decl().kind() in (z3.Z3_OP_STORE, z3.Z3_OP_SELECT) and f.arg(0).sort() == NM.z3():
                 keys[f.arg(1).get_id()] = f.arg(1)
             if f.decl().kind() == z3.Z3_OP_STORE and f.sort() == NM.z3():
                 stores[f.get_id()] = f
-            stack.extend(f.children())
         done = set()
 
         def emit(x):
@@ -324,16 +309,11 @@ def build():
     def cleared_instances(formulas):
         out, seen, stack = [], set(), list(formulas)
         clr, shr = [], []
-        while stack:
-            f = stack.pop()
-            if not z3.is_app(f) or f.get_id() in seen:
-                continue
-            seen.add(f.get_id())
+        for f in subterms(formulas):
             if f.decl().name() == "all_parent_ids_cleared":
                 clr.append(f)
             if f.decl().name() == "shrinks_p":
                 shr.append(f)
-            stack.extend(f.children())
         for c in clr:
             for sh in shr:
                 if sh.arg(0).eq(c.arg(0)):
@@ -402,13 +382,10 @@ def build():
     sf["extends_n"] = lambda a, b: VBool(ext_n(a.term, b.term))
 
     def extend_instances(formulas):
-        out, seen, stack = [], set(), list(formulas)
-        apps, keys, stores, allmaps = [], {}, {}, {}
-        while stack:
-            f = stack.pop()
-            if not z3.is_app(f) or f.get_id() in seen:
-                continue
-            seen.add(f.get_id())
+        out = []
+        fresh, st = new_subterms(formulas, "extend")
+        apps, keys, stores, allmaps = st.setdefault("apps", []), st.setdefault("keys", {}), st.setdefault("stores", {}), st.setdefault("allmaps", {})
+        for f in fresh:
             if f.decl().name() == "extends_n":
                 apps.append(f)
             if f.sort() == NM.z3() and z3.is_const(f):
@@ -417,7 +394,6 @@ def build():
                 keys[f.arg(1).get_id()] = f.arg(1)
             if f.decl().kind() == z3.Z3_OP_STORE and f.sort() == NM.z3():
                 stores[f.get_id()] = f
-            stack.extend(f.children())
         done = set()
 
         def emit(x):
